@@ -21,6 +21,12 @@ private def verdict (line : String) (specOk modelOk : Bool) (modelStr : String) 
 /-- the property's quantifier: m ≥ 2, k ∈ [1, m] (every residue f is admissible) -/
 private def preMK (m k : Int) : Bool := decide (2 ≤ m) && decide (1 ≤ k) && decide (k ≤ m)
 
+/-- soundness of a success; `forcereduce = false` never fails and keeps `den ≤ m/k` (ratrecon_noreduce_total);
+    a failure is exact (ratrecon_false_no_solution / rationalReconstruction_false): checked by brute force for m ≤ 64 -/
+private def specRR (f m k : Int) (fr rc : Bool) (ok num den : Int) : Bool :=
+  if ok != 0 then soundB f m k fr num den && (fr || decide (den * k ≤ m))
+  else fr && (decide (m > 64) || failureExactB f m k rc)
+
 /-- split a flat token list `n c0 … c(n-1) rest…` -/
 private def takePoly (xs : List Int) : Option (LPoly × List Int) :=
   match xs with
@@ -44,28 +50,29 @@ def ratreconLine (line : String) : String :=
       | "rr", [f, m, k, fr, _rc], [ok, num, den] =>
         if !preMK m k then "PRE" else
         let M := ratrecon f m k (fr != 0)
-        let specOk := ok == 0 || soundB f m k (fr != 0) num den
+        let specOk := specRR f m k (fr != 0) false ok num den
         verdict line specOk (M == ⟨ok != 0, num, den⟩) (showOut M)
       -- Rational::ratrecon(num,den,f,m,k,forcereduce,recurs) called directly (static)
       | "rrm", [f, m, k, fr, _rc], [ok, num, den] =>
         if !preMK m k then "PRE" else
         let M := ratrecon f m k (fr != 0)
-        let specOk := ok == 0 || soundB f m k (fr != 0) num den
+        let specOk := specRR f m k (fr != 0) false ok num den
         verdict line specOk (M == ⟨ok != 0, num, den⟩) (showOut M)
       -- ZRing<Integer>::RationalReconstruction(a,b,f,m,k,forcereduce,recursive)
       | "rr7", [f, m, k, fr, rc], [ok, num, den] =>
         if !preMK m k then "PRE" else
         let M := rationalReconstruction f m k (fr != 0) (rc != 0)
         -- without widening the bound is k; with widening the last bound tried is < f
-        let specOk := ok == 0 ||
-          (if rc == 0 then soundB f m k (fr != 0) num den
-           else soundB f m (if (num.natAbs : Int) < k then k else f - 1) (fr != 0) num den)
+        let specOk :=
+          if ok == 0 then specRR f m k (fr != 0) (rc != 0) ok num den
+          else if rc == 0 then soundB f m k (fr != 0) num den
+          else soundB f m (if (num.natAbs : Int) < k then k else f - 1) (fr != 0) num den
         verdict line specOk (M == ⟨ok != 0, num, den⟩) (showOut M)
       -- ZRing<Integer>::RationalReconstruction(a,b,f,m)   (default bound ⌊√m⌋)
       | "rr4", [f, m], [ok, num, den] =>
         if !decide (2 ≤ m) then "PRE" else
         let M := rationalReconstructionDefault f m
-        let specOk := ok == 0 || soundB f m (isqrt m) true num den
+        let specOk := specRR f m (isqrt m) true false ok num den
         verdict line specOk (M == ⟨ok != 0, num, den⟩) (showOut M)
       -- ZRing<Integer>::RationalReconstruction(a,b,x,m,a_bound,b_bound)
       | "rr6", [x, m, ab, bb], [ok, num, den] =>
@@ -81,6 +88,23 @@ def ratreconLine (line : String) : String :=
         let M := rationalReconstructionDefault f m
         let specOk := ok != 0 && num == ca && den == cb
         verdict line specOk (M == ⟨ok != 0, num, den⟩) (showOut M)
+      -- uniqueness (ratrecon_unique): a reduced n/d with |n| < k, d·k ≤ m, 2·k·d ≤ m and any representative f of n·d⁻¹
+      | "ucmp", [cn, cd, m, k, fr, f], [ok, num, den] =>
+        if !(preMK m k && solutionB f m k cn cd && decide (2 * k * cd ≤ m)) then "PRE" else
+        let M := ratrecon f m k (fr != 0)
+        let specOk := ok != 0 && num == cn && den == cd
+        verdict line specOk (M == ⟨ok != 0, num, den⟩) (showOut M)
+      -- the same through the 7-argument wrapper (widening on) and QField::ratrecon(r,f,m,k,recurs)
+      | "ucmp7", [cn, cd, m, k, fr, f], [ok, num, den] =>
+        if !(preMK m k && solutionB f m k cn cd && decide (2 * k * cd ≤ m)) then "PRE" else
+        let M := rationalReconstruction f m k (fr != 0) true
+        let specOk := ok != 0 && num == cn && den == cd
+        verdict line specOk (M == ⟨ok != 0, num, den⟩) (showOut M)
+      | "ucmpq", [cn, cd, m, k, rc, f], [num, den] =>
+        if !(preMK m k && solutionB f m k cn cd && decide (2 * k * cd ≤ m)) then "PRE" else
+        let M := qfieldRatrecon f m k (rc != 0)
+        let specOk := num == cn && den == cd
+        verdict line specOk (M.num == num && M.den == den) (showOut M)
       -- completeness through QField<Rational>::ratrecon(r,f,m[,recurs])
       | "qcmp", [ca, cb, m, f, rc], [num, den] =>
         if !(decide (2 ≤ m) && envelopeB ca cb m) then "PRE" else
@@ -105,11 +129,47 @@ def ratreconLine (line : String) : String :=
               -- quantifier: deg M ≥ 1, 0 ≤ dk < deg M
               if !(decide (1 ≤ ldeg pm) && decide (0 ≤ dk) && decide (dk < ldeg pm)) then "PRE" else
               let M := polyRatrecon p pp pm dk (fr != 0)
-              let specOk := ok == 0 || polySoundB p pp pm dk (fr != 0) pn pd
+              let corner := ldeg (lreduce p pp) == 0 && dk == 0
+              let small := decide (p ≤ 5) && decide ((p.toNat) ^ ((ldeg pm - dk).toNat) ≤ 700)
+              -- poly_ratrecon_full / poly_ratrecon_corner / poly_ratreconcheck_exact
+              let specOk :=
+                if corner then ok == 0
+                else if ok != 0 then polyFullB p pp pm dk (fr != 0) pn pd
+                else (fr != 0) && (!small || !existsPolySolutionB p pp pm dk)
               let modelOk := M.ok == (ok != 0) && lnorm M.n == lnorm pn && lnorm M.d == lnorm pd
               verdict line specOk modelOk s!"{hexInt (b2i M.ok)} {showPoly M.n} {showPoly M.d}"
             | _ => "BAD poly | " ++ line
           | _, _ => "BAD poly | " ++ line
+      -- completeness of ratreconcheck: pcmp p dk nA A… nB B… nM M… nP P… = ok nN N… nD D…   (P built from A/B by the harness)
+      | "pcmp", p :: dk :: rest, ok :: rrest =>
+        match takePoly rest with
+        | none => "BAD poly | " ++ line
+        | some (pa, r1) =>
+          match takePoly r1 with
+          | none => "BAD poly | " ++ line
+          | some (pb, r2) =>
+            match takePoly r2 with
+            | none => "BAD poly | " ++ line
+            | some (pm, r3) =>
+              match takePoly r3, takePoly rrest with
+              | some (pp, []), some (pn, rrest2) =>
+                match takePoly rrest2 with
+                | some (pd, []) =>
+                  let pp' := lreduce p pp
+                  let pre := decide (1 ≤ ldeg pm) && decide (0 ≤ dk) && decide (dk < ldeg pm) &&
+                    decide (ldeg pa ≤ dk) && decide (ldeg pb < ldeg pm - dk) && !(lnorm pb).isEmpty &&
+                    (decide (ldeg pa < dk) || decide (ldeg pp' ≠ dk)) &&
+                    decide (ldeg (lgcd p (lreduce p pb) (lreduce p pm)) ≤ 0) && !(ldeg pp' == 0 && dk == 0)
+                  if !pre then "PRE" else
+                  -- the harness's residue must really be A/B:  B·P ≡ A (mod M)
+                  if !(ldivmod p (lsub p (lmul p (lreduce p pb) pp') (lreduce p pa)) pm).2.isEmpty then "BAD residue | " ++ line else
+                  let M := polyRatrecon p pp pm dk true
+                  let cross := lsub p (lmul p (lreduce p pa) (lreduce p pd)) (lmul p (lreduce p pb) (lreduce p pn))
+                  let specOk := ok != 0 && cross.isEmpty && polyFullB p pp pm dk true pn pd
+                  let modelOk := M.ok == (ok != 0) && lnorm M.n == lnorm pn && lnorm M.d == lnorm pd
+                  verdict line specOk modelOk s!"{hexInt (b2i M.ok)} {showPoly M.n} {showPoly M.d}"
+                | _ => "BAD poly | " ++ line
+              | _, _ => "BAD poly | " ++ line
       | _, _, _ => "BAD key/arity | " ++ line
     | _, _ => "BAD number | " ++ line
 
